@@ -20,7 +20,7 @@ RULE = (
 )
 TIERS = {"quick": {"shards": 8, "n": 700, "budget_s": 200}, "thorough": {"shards": 16, "n": 25000, "budget_s": 2700}}
 FLOOR = {"quick": 300, "thorough": 20000}
-REQUIRED_LABELS = {"quick": ["d:collection", "kind:literal", "kind:optliteral", "kind:dict", "kind:jlist", "empty-header", "n_params=0", "param-without-description", "default-$id"], "thorough": []}
+REQUIRED_LABELS = {"quick": ["d:collection", "kind:literal", "kind:optliteral", "kind:dict", "kind:jlist", "empty-header", "n_params=0", "param-without-description", "default-$id", "multi-paragraph-header", "header:two-or-more-blank-lines"], "thorough": []}
 ASSUMPTIONS = ["jsonschema %s Draft202012Validator is the reference for schema validity" % "(offline wheel)"]
 
 
@@ -41,6 +41,14 @@ def _blank_some_docs(draw, base):
         elif k == 1:
             p.pop("doc", None)
     case["identifier"] = draw(st.sampled_from(["https://example.com/foo.schema.json", None]))
+    if draw(st.integers(0, 3)) == 0:
+        # 'with ... prose description': a long description of several paragraphs, separated by one to three blank
+        # lines, some paragraphs of two lines (JSON carries the text verbatim, so the line structure must survive)
+        paras = draw(st.lists(st.lists(gen_ir.sentence(2, 6).map(lambda t: t.capitalize() + "."), min_size=1, max_size=2).map("\n".join), min_size=2, max_size=4))
+        doc = paras[0]
+        for para in paras[1:]:
+            doc += "\n" * draw(st.integers(2, 4)) + para
+        case["doc"] = doc
     return case
 
 
@@ -164,6 +172,13 @@ def oracle(case):
             r.fail("rt-keys", "%s: %s" % (n, sorted(extra)))
     if normdoc(back.get("doc")) != normdoc(_expected_header(case)):
         r.fail("rt-header", "%r -> %r" % (_expected_header(case), back.get("doc")))
+    if "\n" in (case["doc"] or ""):
+        r.label("multi-paragraph-header")
+        if "\n\n\n" in case["doc"]:
+            r.label("header:two-or-more-blank-lines")
+        lines = lambda t: [l.strip() for l in (t or "").strip().split("\n")]  # noqa: E731
+        if lines(back.get("doc")) != lines(case["doc"]):
+            r.fail("rt-header-lines", "the lines (blank ones included) of the prose changed: %r -> %r" % (case["doc"], back.get("doc")))
     return r
 
 
